@@ -134,6 +134,8 @@ struct ThisThread {
     pub parent: Option<Channel>,
     pub children: HashMap<usize, Thread>,
     pub next_child_id: usize,
+    /// Whether this thread is a pool task or was started by one
+    pub in_pool: bool,
 }
 
 impl Default for ThisThread {
@@ -142,6 +144,7 @@ impl Default for ThisThread {
             parent: Default::default(),
             children: Default::default(),
             next_child_id: 1,
+            in_pool: false,
         }
     }
 }
@@ -1421,11 +1424,16 @@ impl Uiua {
         }
         let (this_send, child_recv) = crossbeam_channel::unbounded();
         let (child_send, this_recv) = crossbeam_channel::unbounded();
+        // A pool task that waited for a free pool worker could wait forever, because the
+        // workers may all be busy with tasks that wait for it. It gets its own thread instead.
+        let in_pool = self.rt.thread.in_pool || _pool;
+        let _pool = _pool && !self.rt.thread.in_pool;
         let thread = ThisThread {
             parent: Some(Channel {
                 send: child_send,
                 recv: child_recv,
             }),
+            in_pool,
             ..ThisThread::default()
         };
         let make_env = || Uiua {
